@@ -629,10 +629,15 @@ class CommandMixin(object):
             # Only the consequences are judged (C01 replay, C13 emptiness).
             self.probes["zone:add-through-stale-handle"] += 1
             self._messages_monotonic(sub.pre, sub.post, ev)
+            recx = self.mb_inc.get(k)
             for (c, f) in sub.frames:
                 if f.get("type") == "message" and c != cm.id:
                     self.v("C02", "unsubscribed-gets-nothing", ev,
                            "add through a dead handle delivered a message to conn %s" % c)
+                    if recx is not None and side not in recx["admitted"] and len(recx["admitted"]) >= 2:
+                        self.v("C05", "third-side-sent-nothing", ev,
+                               "side %r, whose own incarnation of mailbox %r has ended, got a message into the "
+                               "mailbox now shared by sides %r" % (side, k, recx["admitted"]))
             return
         want = (side, msg["phase"], msg["body"], msg.get("id"))
         ms = spec.to_ms(sub.pre)
@@ -670,6 +675,11 @@ class CommandMixin(object):
             cmo = self.conns.get(c)
             if cmo is not None and cmo.app != app:
                 self.v("C06", "no-delivery-across-apps", ev, "message of app %r delivered to conn of app %r" % (app, cmo.app))
+            recx = self.mb_inc.get(k)
+            if cmo is not None and recx is not None and cmo.side not in recx["admitted"] and len(recx["admitted"]) >= 2:
+                self.v("C05", "third-side-sent-nothing", ev,
+                       "a message of mailbox %r (sides %r) was sent to conn %s of side %r"
+                       % (k, recx["admitted"], c, cmo.side))
         others_rest = [f for f in rest if f.get("type") != "message"]
         if others_rest:
             self.v("C02", "add-answers", ev, "add answered by %r" % [self._brief(f) for f in others_rest])
